@@ -176,3 +176,46 @@ func zzDistinct(a []string) []string {
 	}
 	return out
 }
+
+// VerifC05_LookupDuringClusterUpdate: a lookup that overlaps an update of an
+// existing cluster (configuration update that inherits the hosts, or a
+// combined cluster-and-hosts update) sees the cluster entirely before or
+// entirely after the update - never a published cluster whose hosts have not
+// been installed yet: with healthy hosts before and after, a host is chosen.
+func VerifC05_LookupDuringClusterUpdate() {
+	verif.Switches(verif.Param("lookup_switches", 3, 4))
+	verif.Replace("mosn.io/mosn/pkg/configmanager.tryDump", func() {})
+	verif.Replace("mosn.io/mosn/pkg/upstream/cluster.newHostStats", func(string, string) *types.HostStats { return &types.HostStats{} })
+	verif.Replace("mosn.io/mosn/pkg/upstream/cluster.newClusterStats", func(string) *types.ClusterStats { return &types.ClusterStats{} })
+	verif.Replace("mosn.io/mosn/pkg/upstream/cluster.GetOrCreateAddr", func(string) net.Addr { return nil })
+	configmanager.Reset()
+	cm := &clusterManager{protocolConnPool: newConnPool(false)}
+	c := v2.Cluster{Name: "c", LbType: v2.LB_ROUNDROBIN}
+	verif.Assume(cm.AddOrUpdateClusterAndHost(c, zzHostCfgs(3)) == nil) // two hosts
+	kind := verif.Choose("update_kind", 2)
+	done := false
+	go func() {
+		c2 := v2.Cluster{Name: "c", LbType: v2.LB_ROUNDROBIN, MaxRequestPerConn: 9}
+		if kind == 0 {
+			cm.AddOrUpdatePrimaryCluster(c2) // hosts are inherited
+		} else {
+			cm.AddOrUpdateClusterAndHost(c2, zzHostCfgs(6)) // two hosts again (one kept, one new)
+		}
+		done = true
+	}()
+	// the lookup of a request, at any point of the update
+	verif.EngineOnly("the lookup must fall between two steps of the concurrent update: needs a controlled schedule")
+	snap := cm.GetClusterSnapshot(context.Background(), "c")
+	verif.Assert(snap != nil, "the cluster disappeared during its own update")
+	if snap != nil {
+		n := snap.HostSet().Size()
+		verif.Assert(n == 2, "a lookup during a cluster update saw a host set that is neither the old nor the new one")
+		if done {
+			verif.Cover("after")
+		} else {
+			verif.Cover("during-or-before")
+		}
+	}
+	verif.Settle()
+	verif.Cover("end")
+}
